@@ -77,6 +77,17 @@ def generate(tier, rng):
             for a in accs: out.append("CD %s %s 0 %s" % (a, h, c))
             for t in tys: out.append("CT %s %s 0 %s" % (t, h, c))
             out.append("CL %s %s %s" % (LEN_TYPES[i % len(LEN_TYPES)], hexs(e), c))
+    # matching (type, encoding) pairs, preferred and re-framed, so that the typed decodes mostly succeed
+    for key in TYPES + LEN_TYPES:
+        if key in ("strref", "bytesref", "cstrref"): d = tg.parse_desc({"strref": "string", "bytesref": "bytevec", "cstrref": "cstring"}[key])
+        else: d = tg.parse_desc(key)
+        for _ in range(40 if tier == "thorough" else 8):
+            v = tg.gen_value(d, rng)
+            for e in (tg.encode(d, v), tg.encode(d, v, rng)):
+                h = hexs(e)
+                for c in CONFIGS:
+                    if key in TYPES: out.append("CT %s %s 0 %s" % (key, hexs(e + b"\x00"), c))
+                    if key in LEN_TYPES: out.append("CL %s %s %s" % (key, h, c))
     # unknown fields inside field structs: skip of an indefinite item in position >= arity
     for extra in (b"\x9f\xff", b"\xbf\xff", b"\x5f\x41\x01\xff", b"\x7f\xff", b"\x80", b"\x9f\x9f\xff\xff"):
         for enc in (b"\x83\x01\x02" + extra, b"\x9f\x01\x02" + extra + b"\xff", b"\x84\x01\x02" + extra + extra):
